@@ -157,15 +157,19 @@ func (w *WorkerPool) Shutdown() *WorkerPool {
 	defer w.submitMutex.Unlock()
 
 	w.mutex.Lock()
-	defer w.mutex.Unlock()
-
-	if w.isRunning {
+	wasRunning := w.isRunning
+	if wasRunning {
 		w.isRunning = false
 
 		for range w.workerCount {
 			w.shutdownSignal <- struct{}{}
 		}
+	}
+	w.mutex.Unlock()
 
+	// wake up the dispatcher. This happens after releasing the mutex: the dispatcher evaluates IsRunning while it
+	// holds the queue's mutex, which SignalShutdown needs as well.
+	if wasRunning {
 		w.Queue.SignalShutdown()
 	}
 
